@@ -170,6 +170,29 @@ def checkNilSafe (body : Stmt) : Bool :=
   (subsets (dedup (.payloadNil :: atomsS body))).all fun ts =>
     !(valOf ts .payloadNil) || nilSafe (runCmd (valOf ts) body)
 
+/-- actions that only read node metadata -/
+def readOnlyActions : List String := ["mgr.CommitIndex", "mgr.LeaderAddr"]
+
+/-- no state-changing action, no raw stream, no crash -/
+def noMutationEvent : Ev → Bool
+  | .action n => readOnlyActions.contains n
+  | .actionNilPayload _ => false
+  | .stream _ => false
+  | .crash => false
+  | .unknown => false
+  | _ => true
+
+def noMutation (tr : List Ev) : Bool := tr.all noMutationEvent
+
+def grantsNothing (ts : List Atom) : Bool :=
+  ts.all fun a => match a with | .perm _ => false | _ => true
+
+/-- decision procedure: under every assignment in which NO permission check
+passes, the case changes no state -/
+def checkNoPermNoMutation (body : Stmt) : Bool :=
+  (subsets (dedup (atomsS body))).all fun ts =>
+    !grantsNothing ts || noMutation (runCmd (valOf ts) body)
+
 /-! ### expectation: command → documented permission(s)
 
 `none` = the command is public by design (node meta for discovery; the retired
